@@ -671,7 +671,8 @@ func vfBuildFrames(ex vfExchange) ([]vfWireFrame, map[int]uint32) {
 			var fields [][2]string
 			if f.dir == 0 {
 				fields = [][2]string{{":method", "POST"}, {":scheme", "http"}, {":path", fmt.Sprintf("/connectrpc.conformance.v1.ConformanceService/M%d", f.stream)},
-					{":authority", "verif.test"}, {"content-type", s.ReqCT}, {"x-attempt", fmt.Sprint(s.Attempt)}, {"x-stream-index", fmt.Sprint(f.stream)}}
+					{":authority", "verif.test"}, {"content-type", s.ReqCT}, {"x-attempt", fmt.Sprint(s.Attempt)}, {"x-stream-index", fmt.Sprint(f.stream)},
+					{"x-multi", fmt.Sprintf("a%d", f.stream)}, {"x-multi", "b"}} // (a field name may repeat within one header block)
 				if s.Named {
 					fields = append(fields, [2]string{"x-test-case-name", vfTestName(s)})
 				}
@@ -679,14 +680,14 @@ func vfBuildFrames(ex vfExchange) ([]vfWireFrame, map[int]uint32) {
 					fields = append(fields, [2]string{"x-big", strings.Repeat("abcdefghij", 40)})
 				}
 			} else {
-				fields = [][2]string{{":status", "200"}, {"content-type", s.RespCT}, {"x-resp-for", fmt.Sprint(f.stream)}}
+				fields = [][2]string{{":status", "200"}, {"content-type", s.RespCT}, {"x-resp-for", fmt.Sprint(f.stream)}, {"x-resp-multi", "r1"}, {"x-resp-multi", fmt.Sprintf("r2-%d", f.stream)}}
 			}
 			writeHeaders(f.dir, id, encode(f.dir, fields), f.end, f.big)
 		case "trailers":
 			if f.dir == 0 {
 				writeHeaders(f.dir, id, encode(f.dir, [][2]string{{"x-req-trailer-for", fmt.Sprint(f.stream)}}), true, false)
 			} else {
-				writeHeaders(f.dir, id, encode(f.dir, [][2]string{{"grpc-status", "0"}, {"x-trailer-for", fmt.Sprint(f.stream)}}), true, false)
+				writeHeaders(f.dir, id, encode(f.dir, [][2]string{{"grpc-status", "0"}, {"x-trailer-for", fmt.Sprint(f.stream)}, {"x-trailer-multi", "t1"}, {"x-trailer-multi", "t2"}}), true, false)
 			}
 		case "data":
 			if f.padded {
@@ -1010,6 +1011,9 @@ func vfC15Check(ex vfExchange) error {
 				tr.Request.Header.Get("Content-Type") != s.ReqCT || tr.Request.Header.Get("X-Attempt") != fmt.Sprint(s.Attempt) {
 				return verifkit.Violf("h2-request-line", "stream %d: request line/headers wrong: %s %s %v", so.stream, tr.Request.Method, tr.Request.URL.Path, tr.Request.Header)
 			}
+			if got := fmt.Sprint(tr.Request.Header.Values("X-Multi")); got != fmt.Sprintf("[a%d b]", so.stream) {
+				return verifkit.Violf("h2-request-line", "stream %d: the request header field x-multi was sent twice (a%d, b) but the trace has %s", so.stream, so.stream, got)
+			}
 			if s.BigHeaders && tr.Request.Header.Get("X-Big") != strings.Repeat("abcdefghij", 40) {
 				return verifkit.Violf("h2-request-line", "stream %d: header carried in CONTINUATION frames is missing", so.stream)
 			}
@@ -1021,6 +1025,12 @@ func vfC15Check(ex vfExchange) error {
 			if so.gotResp {
 				if tr.Response == nil || tr.Response.StatusCode != 200 || tr.Response.Header.Get("X-Resp-For") != fmt.Sprint(so.stream) || tr.Response.Header.Get("Content-Type") != s.RespCT {
 					return verifkit.Violf("h2-response", "stream %d: response status/headers wrong or attributed to another stream: %+v", so.stream, tr.Response)
+				}
+				if got := fmt.Sprint(tr.Response.Header.Values("X-Resp-Multi")); got != fmt.Sprintf("[r1 r2-%d]", so.stream) {
+					return verifkit.Violf("h2-response", "stream %d: the response header field x-resp-multi was sent twice but the trace has %s", so.stream, got)
+				}
+				if got := fmt.Sprint(tr.Response.Trailer.Values("X-Trailer-Multi")); so.trailers && got != "[t1 t2]" {
+					return verifkit.Violf("h2-trailers", "stream %d: the trailer field x-trailer-multi was sent twice but the trace has %s", so.stream, got)
 				}
 				if so.trailers && tr.Response.Trailer.Get("X-Trailer-For") != fmt.Sprint(so.stream) {
 					return verifkit.Violf("h2-trailers", "stream %d: trailers missing or of another stream: %v", so.stream, tr.Response.Trailer)
@@ -1175,6 +1185,10 @@ func vfGenExchange(t *rapid.T) vfExchange {
 		nextName++
 		s.ReqCT = rapid.SampledFrom(vfH2CTs).Draw(t, "reqCT")
 		s.RespCT = s.ReqCT
+		if rapid.IntRange(0, 3).Draw(t, "otherRespCT") == 0 {
+			// the response need not be of the request's kind (an error page answering an enveloped request, ...)
+			s.RespCT = rapid.SampledFrom(append([]string{"text/plain"}, vfH2CTs...)).Draw(t, "respCT")
+		}
 		s.ReqMsgs = vfGenMsgs(t, "req")
 		s.RespMsgs = vfGenMsgs(t, "resp")
 		for j, k := 0, rapid.IntRange(0, 3).Draw(t, "nsizes"); j < k; j++ {
